@@ -185,8 +185,8 @@ type dNode struct {
 	SigVerifier dsmr.ChunkSignatureRequestVerifier[dsmrtest.Tx]
 	Signer      warp.Signer
 	PK          *bls.PublicKey
-	mu      sync.Mutex
-	blocks  map[ids.ID]dsmr.Block // accepted and verified blocks this node knows (its chain index)
+	mu          sync.Mutex
+	blocks      map[ids.ID]dsmr.Block // accepted and verified blocks this node knows (its chain index)
 }
 
 func (n *dNode) getBlock(_ context.Context, id ids.ID) (dsmr.Block, error) {
@@ -213,7 +213,7 @@ type netCfg struct {
 	NoSigFrom   map[int]bool // validators that are unreachable for signature requests (they never see the chunk)
 	Plan        *faultPlan   // faults on GetChunk answers
 	Genesis     dsmr.Block
-	PlanForNode int // only this node's chunk requests are faulted (-1: none)
+	PlanForNode int            // only this node's chunk requests are faulted (-1: none)
 	Weight      *atomic.Uint64 // nil: no effective per-producer limit
 }
 
